@@ -415,6 +415,16 @@ func runC02(r *rt.Runner) {
 // c02Pinned: regression programs for findings (DESIGN.md section 6) and
 // hand-picked alias/overflow situations.
 var c02Pinned = []string{
+	// a dictionary literal defines its pairs in order: the last value of a key wins
+	"<< /a 1 /b 2 /a 3 >> dup /a get exch length",
+	"mark /k (x) /k (y) /k 7 >> /k get",
+	"<< /a 1 /a 2 /b 3 /b 4 /a 5 >> dup /a get exch /b get",
+	// name look-up goes down the dictionary stack: a definition in userdict hides
+	// the operator also when further dictionaries lie on top of it
+	"/length 42 def 3 dict begin /x 1 def /length load end",
+	"/add { sub } def 2 dict begin 1 dict begin 7 3 add end end",
+	"/dup 5 def 1 dict begin /y 2 def dup end",
+	"/abs (p) def 3 dict begin currentdict /abs known /abs load /abs where { /abs get } if end",
 	// `[`, `<<` and `mark` push the same mark object: any of the three closers
 	// works with any of them
 	"[ /a 1 /b (x) >> /a get",
